@@ -12,7 +12,9 @@ def main():
         if not os.path.exists(mp):
             continue
         meta = json.load(open(mp))
-        prop = meta.get('reported_by', meta['property'])  # differs for changes outside their property's subject or quantifier (see meta.json)
+        prop = meta.get('reported_by', meta['property'])
+        if prop == 'none':
+            continue  # documented bound of the simulation (DESIGN 11)  # differs for changes outside their property's subject or quantifier (see meta.json)
         res = []
         for s in seeds:
             env = dict(os.environ, VERIF_SEED=s)
